@@ -225,17 +225,24 @@ func (h *FBDNSDB) watchDBAndReload(watcher *fsnotify.Watcher) (err error) {
 		case <-h.done:
 			return nil
 		case ev := <-watcher.Events:
-			if filterEvent(ev.Op) && path.Clean(ev.Name) == h.dbConfig.Path {
+			if filterEvent(ev.Op) && path.Clean(ev.Name) == h.currentDBPath() {
 				h.ReloadChan <- *NewPartialReloadSignal()
 			}
 		}
 	}
 }
 
+// currentDBPath returns the path of the served DB; Reload changes it under reloadMu.
+func (h *FBDNSDB) currentDBPath() string {
+	h.reloadMu.RLock()
+	defer h.reloadMu.RUnlock()
+	return h.dbConfig.Path
+}
+
 // WatchDBAndReload refreshes the data view on DB file change
 func (h *FBDNSDB) WatchDBAndReload() error {
 	// Watch the whole dir as file FD might change
-	watchdir := path.Dir(h.dbConfig.Path)
+	watchdir := path.Dir(h.currentDBPath())
 	watcher, err := prepareDBWatcher(watchdir)
 	if watcher != nil {
 		defer watcher.Close()
